@@ -149,6 +149,8 @@ var funcSpecs = []funcSpec{
 		params: []string{"(reader_remaining : σ → Nat)"}, fuel: map[int]string{1: "reader_remaining sr + 1"}},
 	{rel: "plugin", name: "(*Identity).Unwrap", abstract: pluginAbstract, opaque: pluginOpaque, wrapTransparent: true, threaded: pluginThreaded, expose: []string{"conn"},
 		params: []string{"(reader_remaining : σ → Nat)"}, fuel: map[int]string{2: "reader_remaining sr + 1"}},
+	{rel: "cmd/age", name: "parseRecipient", abstract: []string{"plugin.NewRecipient", "age.ParseX25519Recipient", "agessh.ParseRecipient"}, opaque: cliOpaque},
+	{rel: "cmd/age", name: "parseIdentity", abstract: []string{"plugin.NewIdentity", "age.ParseX25519Identity"}, opaque: cliOpaque},
 	{rel: "", name: "ParseRecipients", abstract: []string{"age.ParseX25519Recipient"}, opaque: map[string]string{"Recipient": "κ", "X25519Recipient": "κ"}, errInts: true},
 }
 
@@ -164,6 +166,9 @@ var marshalOpaque = map[string]string{"io.Writer": "δ", "format.WrappedBase64En
 var pluginAbstract = []string{"plugin.openClientConnection", "plugin.writeStanza", "plugin.writeStanzaWithBody", "format.NewStanzaReader", "plugin.readStanza", "plugin.handle", "format.Marshal"}
 var pluginOpaque = map[string]string{"plugin.clientConnection": "χ", "plugin.ClientUI": "υ", "format.StanzaReader": "σ", "bufio.Reader": "χ", "io.Writer": "χ"}
 var pluginThreaded = map[string][]string{"plugin.writeStanza": {"conn"}, "plugin.writeStanzaWithBody": {"conn"}, "plugin.readStanza": {"sr"}, "plugin.handle": {"conn"}, "format.Marshal": {"conn"}}
+
+// cmd/age: whatever a constructor returns is a recipient / an identity
+var cliOpaque = map[string]string{"age.Recipient": "ρ", "plugin.Recipient": "ρ", "age.X25519Recipient": "ρ", "age.Identity": "ι", "plugin.Identity": "ι", "age.X25519Identity": "ι", "plugin.ClientUI": "υ"}
 
 // agessh: the primitives, the key's wire form and its fingerprint are abstract
 var sshAbstract = []string{"curve25519.X25519", "format.EncodeToString", "format.DecodeString", "agessh.aeadEncrypt", "agessh.aeadDecrypt", "agessh.sshFingerprint"}
@@ -189,6 +194,7 @@ var stdlibPure = map[string]string{
 	"strings.TrimSuffix":   "Go.strings_TrimSuffix",
 	"strings.LastIndex":    "Go.strings_LastIndex",
 	"bytes.HasPrefix":      "Go.strings_HasPrefix",
+	"strings.Count":        "Go.strings_Count",
 	"bytes.TrimSuffix":     "Go.strings_TrimSuffix",
 	"bytes.Equal":          "Go.bytes_Equal",
 }
